@@ -527,6 +527,68 @@ func c16Tri(c *Ctx, ok, real bool, rule, key string, pos token.Pos, f string, a 
 	}
 }
 
+// c16IsDupTest: v is true (neg: false) exactly when p.hashMove == x[i].Move — the
+// comparison itself, or a chess-3 function that returns such a comparison of its parameters.
+func c16IsDupTest(v ssa.Value, x, i ssa.Value) (neg, ok bool) {
+	isHash := func(o ssa.Value) bool { return c16LoadOfField(o, c16fHash) }
+	isMove := func(o ssa.Value) bool {
+		mx, mi, ok := c16LoadElem(o, "Move")
+		return ok && mx == x && mi == i
+	}
+	if call, isCall := v.(*ssa.Call); isCall {
+		callee := call.Call.StaticCallee()
+		if callee == nil || !isOwn(callee) || callee.Blocks == nil || len(c16Rets(callee)) != 1 || len(c16Rets(callee)[0].Results) != 1 {
+			return false, false
+		}
+		arg := func(o ssa.Value) ssa.Value {
+			for k, prm := range callee.Params {
+				if o == ssa.Value(prm) && k < len(call.Call.Args) {
+					return call.Call.Args[k]
+				}
+			}
+			return nil
+		}
+		h, m := isHash, isMove
+		isHash = func(o ssa.Value) bool { a := arg(o); return a != nil && h(a) }
+		isMove = func(o ssa.Value) bool {
+			if a := arg(o); a != nil {
+				return m(a)
+			}
+			if addr, ok := c16Load(o); ok { // *(&param.Move) with param = &x[i]
+				if base, ok := c16FieldAddr(addr, "move.Weighted.Move"); ok {
+					if a := arg(base); a != nil {
+						ex, ei, ok := c16Elem(a, "")
+						return ok && ex == x && ei == i
+					}
+				}
+			}
+			return false
+		}
+		v = c16Rets(callee)[0].Results[0]
+	}
+	cmp, isB := v.(*ssa.BinOp)
+	if !isB || (cmp.Op != token.EQL && cmp.Op != token.NEQ) {
+		return false, false
+	}
+	if (isHash(cmp.X) && isMove(cmp.Y)) || (isHash(cmp.Y) && isMove(cmp.X)) {
+		return cmp.Op == token.NEQ, true
+	}
+	return false, false
+}
+
+// c16SameFrame: a and b denote the picker's frame: the same value, or two Store.Frame()
+// calls on p.ms (the frame only changes in the generating stages, which R3/R4 cover).
+func c16SameFrame(a, b ssa.Value) bool {
+	if a == b {
+		return true
+	}
+	onMs := func(v ssa.Value) bool {
+		call, ok := v.(*ssa.Call)
+		return ok && isCallValueTo(v, c16Frame) && len(call.Call.Args) == 1 && c16LoadOfField(call.Call.Args[0], "picker.Picker.ms")
+	}
+	return onMs(a) && onMs(b)
+}
+
 // c16K: v is a constant operand (no conversions looked through).
 func c16K(v ssa.Value) (int64, bool) {
 	if _, ok := v.(*ssa.Const); !ok {
@@ -664,20 +726,23 @@ type c16RankLoop struct {
 	gen          ssa.CallInstruction
 	genName, key string
 	problems     []string
-	hashIf       *ssa.If
+	dupCmp       ssa.Value // the p.hashMove == moves[i].Move test (possibly inside a callee)
+	dupOK, simOK bool
 	hasS         bool
 	S            int64
 }
 
 type c16SelLoop struct {
 	cmp       *ssa.BinOp
-	x, i      ssa.Value
-	init      ssa.Value
-	maxim     *ssa.Phi
-	T         int64
+	x, i      ssa.Value // slice scanned, loop index (x bound to the caller's argument when the loop lives in a callee)
+	init, thr ssa.Value // first index, threshold (bound likewise)
+	T         int64     // constant threshold
 	strict    bool
-	best      *ssa.Phi
+	best      ssa.Value // the selected index as Next sees it: the header phi, or the call that returns it
+	bestPhi   *ssa.Phi
 	none      int64
+	guarded   bool
+	anchor    ssa.Instruction
 	exit      *ssa.If
 	foundTrue bool
 	final     bool
@@ -728,16 +793,32 @@ func c16Scan(c *Ctx, p *Prog) *c16Picker {
 	if len(fn.Params) > 0 {
 		pk.recv = fn.Params[0]
 	}
-	helper := false
+	// the receiver may be handed to chess-3 functions as long as nothing they reach writes the cursor or the state
+	helper := ""
 	allInstrs(fn, func(in ssa.Instruction) {
-		if ci, ok := in.(ssa.CallInstruction); ok && pk.recv != nil {
-			for _, a := range ci.Common().Args {
-				helper = helper || a == pk.recv
+		ci, ok := in.(ssa.CallInstruction)
+		if !ok || pk.recv == nil {
+			return
+		}
+		for _, a := range ci.Common().Args {
+			if a != pk.recv {
+				continue
+			}
+			callee := ci.Common().StaticCallee()
+			if callee == nil || !isOwn(callee) || callee == fn {
+				helper = "a dynamic, foreign or recursive call"
+				continue
+			}
+			eff := unionEffects(p.closure([]*ssa.Function{callee}, nil))
+			for _, f := range []string{c16fIx, c16fState, "picker.Picker.*"} {
+				if len(eff.FieldWrites[f]) > 0 || len(eff.Escapes[f]) > 0 {
+					helper = fnName(callee) + ", which writes " + f
+				}
 			}
 		}
 	})
-	if helper || pk.recv == nil {
-		c.Undec(rule, c16Next+"#receiver-passed-on", fn.Pos(), "Next hands its receiver to another function; cursor and state updates outside Next are not followed by these rules")
+	if helper != "" || pk.recv == nil {
+		c.Undec(rule, c16Next+"#receiver-passed-on", fn.Pos(), "Next hands its receiver to %s; cursor and state updates outside Next are not followed by these rules", helper)
 		return nil
 	}
 	pk.gens = append(callsIn(fn, c16GenN), callsIn(fn, c16GenQ)...)
@@ -834,48 +915,54 @@ func c16ScanRanks(pk *c16Picker) {
 		} else if mx, mi, ok := c16LoadElem(call.Call.Args[1], "Move"); !ok || mx != x || mi != i {
 			bad("the ranker is not given moves[i].Move of the element it weights")
 		}
-		// duplicate test
-		for _, ce := range controllingConds(st.Block()) {
-			cmp, ok := ce.Cond.(*ssa.BinOp)
-			if !ok || (cmp.Op != token.EQL && cmp.Op != token.NEQ) {
-				continue
+		// duplicate test, decided path-sensitively: with 'eq' = (p.hashMove == moves[i].Move),
+		// the ranker's store must not execute when eq holds and a constant (sentinel) store must execute only then
+		classify := func(v ssa.Value) (string, bool, bool) {
+			if neg, ok := c16IsDupTest(v, x, i); ok {
+				l.dupCmp = v
+				return "eq", neg, true
 			}
-			a, b := cmp.X, cmp.Y
-			if !c16LoadOfField(a, c16fHash) {
-				a, b = b, a
-			}
-			if !c16LoadOfField(a, c16fHash) {
-				continue
-			}
-			if mx, mi, ok := c16LoadElem(b, "Move"); ok && mx == x && mi == i && ce.True == (cmp.Op == token.NEQ) {
-				l.hashIf = ce.If
-			}
+			return "", false, false
 		}
-		if l.hashIf == nil {
+		// one exploration: for the ranker's store and every constant store to moves[i].Weight, under which values of eq can it execute?
+		type seenEq struct{ onEq, onNeq bool }
+		at := map[ssa.Instruction]*seenEq{}
+		sm := &simulator{fn: pk.fn, classify: classify, maxVisit: 1}
+		sm.interest = func(in ssa.Instruction) bool {
+			s2, ok := in.(*ssa.Store)
+			if !ok {
+				return false
+			}
+			sx, si, ok := c16Elem(s2.Addr, "Weight")
+			_, isC := c16K(s2.Val)
+			return ok && sx == x && si == i && (s2 == st || isC)
+		}
+		sm.visit = func(in ssa.Instruction, asg map[string]bool) {
+			if at[in] == nil {
+				at[in] = &seenEq{}
+			}
+			eq, decided := asg["eq"]
+			at[in].onEq = at[in].onEq || !decided || eq
+			at[in].onNeq = at[in].onNeq || !decided || !eq
+		}
+		sm.run()
+		l.simOK = !sm.aborted
+		if l.dupCmp == nil || at[st] == nil {
 			return
 		}
-		// sentinel store on the equality edge
-		for _, ob := range pk.fn.Blocks {
-			for _, oin := range ob.Instrs {
-				s2, ok := oin.(*ssa.Store)
-				if !ok || s2 == st {
-					continue
-				}
-				sx, si, ok := c16Elem(s2.Addr, "Weight")
-				if !ok || sx != x || si != i {
-					continue
-				}
-				onEq := false
-				for _, ce := range controllingConds(ob) {
-					if ce.If == l.hashIf {
-						cmp := ce.Cond.(*ssa.BinOp)
-						onEq = ce.True == (cmp.Op == token.EQL)
-					}
-				}
-				if n, isC := c16K(s2.Val); onEq && isC {
-					l.S, l.hasS = n, true
-				}
+		l.dupOK = l.simOK && !at[st].onEq
+		for in, se := range at {
+			if in == ssa.Instruction(st) {
+				continue
 			}
+			if se.onNeq || !se.onEq {
+				l.dupOK = false // a constant weight for a move that is not the duplicate
+				continue
+			}
+			if n, _ := c16K(in.(*ssa.Store).Val); !l.hasS || n > l.S {
+				l.S = n
+			}
+			l.hasS = true
 		}
 	})
 	for _, l := range pk.ranks {
@@ -886,8 +973,10 @@ func c16ScanRanks(pk *c16Picker) {
 	}
 }
 
-func c16ScanSels(pk *c16Picker) {
-	allInstrs(pk.fn, func(in ssa.Instruction) {
+// c16SelsIn recognises argmax selection loops in fn. x, init and the threshold
+// are values of fn (possibly its parameters); best is the header phi.
+func c16SelsIn(fn *ssa.Function) (out []*c16SelLoop) {
+	allInstrs(fn, func(in ssa.Instruction) {
 		cmp, ok := in.(*ssa.BinOp)
 		if !ok {
 			return
@@ -898,32 +987,31 @@ func c16ScanSels(pk *c16Picker) {
 		}
 		m, w := cmp.X, cmp.Y
 		if _, _, isW := c16LoadElem(w, "Weight"); !isW {
-			m, w = w, m
-			op = map[token.Token]token.Token{token.LSS: token.GTR, token.GTR: token.LSS, token.LEQ: token.GEQ, token.GEQ: token.LEQ}[op]
+			m, w, op = w, m, c16Flip[op]
 		}
 		x, i, isW := c16LoadElem(w, "Weight")
 		mp, isPhi := m.(*ssa.Phi)
 		if !isW || !isPhi || (op != token.LSS && op != token.LEQ) || len(mp.Edges) != 2 {
 			return
 		}
-		l := &c16SelLoop{cmp: cmp, x: x, i: i, maxim: mp, strict: op == token.LSS}
+		l := &c16SelLoop{cmp: cmp, x: x, i: i, strict: op == token.LSS}
 		hdr := mp.Block()
 		var back ssa.Value
 		for k, e := range mp.Edges {
 			if hdr.Dominates(hdr.Preds[k]) {
 				back = e
-			} else if l.T, ok = c16K(e); !ok {
-				return
+			} else {
+				l.thr = e
 			}
 		}
 		bp, ok := back.(*ssa.Phi)
-		if !ok {
+		if !ok || l.thr == nil {
 			return
 		}
 		// back-edge value: maxim kept, or the weight of moves[i] taken under the comparison
 		takeIdx := -1
 		for k, e := range bp.Edges {
-			if e == mp {
+			if e == ssa.Value(mp) {
 				continue
 			}
 			wx, wi, ok := c16LoadElem(e, "Weight")
@@ -944,7 +1032,7 @@ func c16ScanSels(pk *c16Picker) {
 		if takeIdx == -1 {
 			return
 		}
-		// best: parallel phi pair
+		// best: a header phi updated in parallel (i when the weight is taken, itself otherwise)
 		for _, hin := range hdr.Instrs {
 			hp, ok := hin.(*ssa.Phi)
 			if !ok || hp == mp || len(hp.Edges) != 2 {
@@ -971,19 +1059,63 @@ func c16ScanSels(pk *c16Picker) {
 				}
 			}
 			if par {
-				l.best, l.none = hp, none
+				l.best, l.bestPhi, l.none = hp, hp, none
 			}
 		}
 		if l.best == nil {
 			return
 		}
+		l.init, _, _ = c16Counter(i)
+		l.guarded = c16Guard(cmp.Block(), i, x) != nil
+		l.anchor = mp
+		out = append(out, l)
+	})
+	return out
+}
+
+// c16ScanSels finds the selection scans of Next: loops written in Next itself, and
+// loops in chess-3 functions Next calls that return the selected index (parameters
+// bound to the call's arguments, the call's value standing for 'best').
+func c16ScanSels(pk *c16Picker) {
+	cands := c16SelsIn(pk.fn)
+	allInstrs(pk.fn, func(in ssa.Instruction) {
+		call, ok := in.(*ssa.Call)
+		if !ok {
+			return
+		}
+		callee := call.Call.StaticCallee()
+		if callee == nil || !isOwn(callee) || callee.Blocks == nil || callee == pk.fn {
+			return
+		}
+		bind := func(v ssa.Value) ssa.Value {
+			for k, prm := range callee.Params {
+				if v == ssa.Value(prm) && k < len(call.Call.Args) {
+					return call.Call.Args[k]
+				}
+			}
+			return v
+		}
+		for _, l := range c16SelsIn(callee) {
+			rets := c16Rets(callee)
+			if len(rets) != 1 || len(rets[0].Results) != 1 || rets[0].Results[0] != ssa.Value(l.bestPhi) || !l.bestPhi.Block().Dominates(rets[0].Block()) {
+				continue // the callee does not simply return the selected index
+			}
+			l.x, l.init, l.thr, l.best, l.anchor = bind(l.x), bind(l.init), bind(l.thr), call, call
+			cands = append(cands, l)
+		}
+	})
+	for _, l := range cands {
+		var ok bool
+		if l.T, ok = c16K(l.thr); !ok || l.best.Referrers() == nil {
+			continue
+		}
 		for _, r := range *l.best.Referrers() {
-			if t, ok := r.(*ssa.BinOp); ok && (t.Op == token.NEQ || t.Op == token.EQL) {
+			if t, ok := r.(*ssa.BinOp); ok && (t.Op == token.NEQ || t.Op == token.EQL) && t.Referrers() != nil {
 				other := t.Y
-				if other == ssa.Value(l.best) {
+				if other == l.best {
 					other = t.X
 				}
-				if n, isC := constOf(other); isC && n == l.none {
+				if n, isC := c16K(other); isC && n == l.none {
 					for _, tr := range *t.Referrers() {
 						if iff, ok := tr.(*ssa.If); ok {
 							l.exit, l.foundTrue = iff, t.Op == token.NEQ
@@ -993,13 +1125,12 @@ func c16ScanSels(pk *c16Picker) {
 			}
 		}
 		if l.exit == nil {
-			return
+			continue
 		}
-		l.init, _, _ = c16Counter(i)
 		l.final = true
 		for _, g := range pk.gens {
 			if objName(calleeObj(g)) == c16GenQ {
-				if ok, _ := reachAvoiding(mp, g.(ssa.Instruction), nil); ok {
+				if ok, _ := reachAvoiding(l.anchor, g.(ssa.Instruction), nil); ok {
 					l.final = false
 				}
 			}
@@ -1009,7 +1140,7 @@ func c16ScanSels(pk *c16Picker) {
 			l.key = "Next#select-rest"
 		}
 		pk.sels = append(pk.sels, l)
-	})
+	}
 }
 
 // ---------------------------------------------------------------- R2 history saturation
@@ -1076,83 +1207,180 @@ func c16R2(c *Ctx, p *Prog, tun map[string][2]int64) *c16Eval {
 		c.Anchor(rule, "heur.MaxHistory")
 		return ev
 	}
-	tabs := []struct{ field, add string }{
-		{"heur.History.data", "heur.(*History).Add"},
-		{"heur.Continuation.data", "heur.(*Continuation).Add"},
-		{"heur.CaptHist.data", "heur.(*CaptHist).Add"},
-	}
 	n := 0
-	for _, t := range tabs {
-		add := p.Func(t.add)
-		if add == nil {
-			c.Anchor(rule, t.add)
-			continue
-		}
-		var stores []*ssa.Store
-		allInstrs(add, func(in ssa.Instruction) {
-			if st, ok := in.(*ssa.Store); ok {
-				if fr, ok := asFieldAddr(st.Addr); ok && fr.QName() == t.field {
-					stores = append(stores, st)
-				}
-			}
-		})
-		if len(stores) != 1 {
-			c.Undec(rule, t.add+"#shape", add.Pos(), "%d stores to %s in %s; the rule understands exactly one update statement", len(stores), t.field, t.add)
-			continue
-		}
-		st := stores[0]
-		d, cb, prodT, why := c16Gravity(st, ev)
-		if why != "" {
-			c.Undec(rule, t.add+"#shape", st.Pos(), "update of %s is not of the form e += cb - e*|cb|/D with cb = Clamp(bonus, lo, hi): %s", t.field, why)
-			continue
-		}
-		n++
-		cMax := max(-cb.lo, cb.hi)
-		elemR, _ := c16TypeRange(st.Val.Type())
-		prodR, okP := c16TypeRange(prodT)
-		prod, okM := c16MulOv(cMax, max(d, cMax))
-		c.Check(cMax <= d, rule, t.add+"#clamp<=divisor", st.Pos(),
-			"clamp range %s vs divisor %d: with |cb| <= C <= D the map e -> e + cb - e*|cb|/D keeps |e| <= D (e=D,cb=C gives D - (D-D)(D-C)/D = D; monotone in e); with C > D an entry at D receiving cb=-C lands at -C - D*C/D < -D", cb, d)
-		c.Check(okP && okM && prod <= prodR.hi, rule, t.add+"#product-width", st.Pos(),
-			"e*|cb| is formed in %s; it can reach %d*%d = %d, which must not wrap (int16 would wrap at 32767 and break the gravity term)", prodT, max(d, cMax), cMax, prod)
-		c.Check(d <= elemR.hi && -d >= elemR.lo && cMax <= elemR.hi, rule, t.add+"#fits-element", st.Pos(),
-			"bound %d and clamp %d fit the element type %s", d, cMax, st.Val.Type())
-		c.Check(d <= maxH, rule, t.add+"#bound<=MaxHistory", st.Pos(),
-			"saturation bound D = %d of %s vs heur.MaxHistory = %d (the per-store bound the band layout and its init-time assertion are written against)", d, t.field, maxH)
-		if cMax <= d && okP && okM && prod <= prodR.hi && d <= elemR.hi {
-			ev.tables[t.field] = d
-		}
-		// no other writer may put a non-zero value into the table
-		ws := p.writersOf(t.field)
+	for _, field := range []string{"heur.History.data", "heur.Continuation.data", "heur.CaptHist.data"} {
+		// every place that can write an element: direct stores, and element addresses handed to chess-3 functions
+		ws := p.writersOf(field)
+		bound, grav, open := int64(0), 0, false
 		for _, w := range sortedKeys(ws) {
 			for k, s := range ws[w] {
-				if s.In == ssa.Instruction(st) {
-					continue
+				base := strings.TrimSuffix(w, "#escape")
+				key := base
+				if k > 0 {
+					key = fmt.Sprintf("%s@%d", base, k)
 				}
-				key := fmt.Sprintf("%s#writer:%s@%d", t.field, w, k)
 				if o, ok := s.In.(*ssa.Store); ok && !strings.HasSuffix(w, "#escape") {
 					if z, isZ := c16K(o.Val); isZ && z == 0 {
-						c.Ok(rule, key, s.Pos, "%s stores the zero value into %s (inside the bound)", w, t.field)
+						c.Ok(rule, field+"#writer:"+key, s.Pos, "%s stores the zero value into %s (inside the bound)", w, field)
 						continue
 					}
 				}
-				c.Undec(rule, key, s.Pos, "%s writes %s outside the gravity update (%s): the bound |e| <= %d no longer follows from Add alone and the rule cannot bound this writer", w, t.field, s.What, d)
-				delete(ev.tables, t.field)
+				ups, why := c16Updates(s.In, field, 0)
+				if why != "" || len(ups) == 0 {
+					c.Undec(rule, field+"#writer:"+key, s.Pos, "%s writes %s (%s) in a way the rule cannot follow (%s): the bound no longer follows from the gravity updates alone", w, field, s.What, why)
+					open = true
+					continue
+				}
+				for _, st := range ups {
+					d, cb, prodT, why := c16Gravity(st, ev)
+					if why != "" {
+						c.Undec(rule, key+"#shape", st.Pos(), "update of %s (in %s) is not of the form e += cb - e*|cb|/D with a clamped cb: %s", field, fnName(st.Parent()), why)
+						open = true
+						continue
+					}
+					grav++
+					cMax := max(-cb.lo, cb.hi)
+					elemR, _ := c16TypeRange(st.Val.Type())
+					prodR, okP := c16TypeRange(prodT)
+					prod, okM := c16MulOv(cMax, max(d, cMax))
+					c.Check(cMax <= d, rule, key+"#clamp<=divisor", st.Pos(),
+						"clamp range %s vs divisor %d: with |cb| <= C <= D the map e -> e + cb - e*|cb|/D keeps |e| <= D (e=D,cb=C gives D - (D-D)(D-C)/D = D; monotone in e); with C > D an entry at D receiving cb=-C lands at -C - D*C/D < -D", cb, d)
+					c.Check(okP && okM && prod <= prodR.hi, rule, key+"#product-width", st.Pos(),
+						"e*|cb| passes through %s before the division; it can reach %d*%d = %d, which must not wrap (int16 would wrap at 32767 and break the gravity term)", prodT, max(d, cMax), cMax, prod)
+					c.Check(d <= elemR.hi && -d >= elemR.lo && cMax <= elemR.hi, rule, key+"#fits-element", st.Pos(),
+						"bound %d and clamp %d fit the element type %s", d, cMax, st.Val.Type())
+					c.Check(d <= maxH, rule, key+"#bound<=MaxHistory", st.Pos(),
+						"saturation bound D = %d of %s vs heur.MaxHistory = %d (the per-store bound the band layout and its init-time assertion are written against)", d, field, maxH)
+					if cMax <= d && okP && okM && prod <= prodR.hi && d <= elemR.hi {
+						bound = max(bound, d)
+					} else {
+						open = true
+					}
+				}
+			}
+		}
+		if grav > 0 {
+			n++
+			if !open {
+				ev.tables[field] = bound
 			}
 		}
 	}
-	c.Floor(rule, n, 3, "history stores with the gravity update shape")
+	c.Floor(rule, n, 3, "history stores updated through the gravity shape")
 	return ev
 }
 
-// c16Gravity matches st = "e = e + cb - conv(conv(e)*conv(Abs(cb)) / D)".
+// c16Updates resolves a write site of a table element — a direct store, or the
+// element's address handed to a chess-3 function — to the stores that update it.
+func c16Updates(in ssa.Instruction, field string, depth int) ([]*ssa.Store, string) {
+	if st, ok := in.(*ssa.Store); ok {
+		if fr, ok := asFieldAddr(st.Addr); ok && fr.QName() == field {
+			return []*ssa.Store{st}, ""
+		}
+		return nil, "the element's address is stored"
+	}
+	ci, ok := in.(ssa.CallInstruction)
+	if !ok {
+		return nil, "not a store or call"
+	}
+	callee := ci.Common().StaticCallee()
+	if callee == nil || !isOwn(callee) || callee.Blocks == nil {
+		return nil, "address passed to a function that is not a static chess-3 callee"
+	}
+	var out []*ssa.Store
+	for i, a := range ci.Common().Args {
+		if _, isPtr := a.Type().Underlying().(*types.Pointer); !isPtr || i >= len(callee.Params) {
+			continue
+		}
+		if fr, ok := asFieldAddr(a); ok && fr.QName() == field {
+			ups, why := c16ViaParam(callee.Params[i], depth)
+			if why != "" {
+				return nil, why
+			}
+			out = append(out, ups...)
+		}
+	}
+	return out, ""
+}
+
+// c16ViaParam: the stores through pointer parameter prm, provided prm is only loaded, stored through, or passed on to chess-3 callees.
+func c16ViaParam(prm *ssa.Parameter, depth int) ([]*ssa.Store, string) {
+	var out []*ssa.Store
+	if prm.Referrers() == nil || depth > 3 {
+		return nil, "pointer passed through too many calls"
+	}
+	for _, r := range *prm.Referrers() {
+		switch x := r.(type) {
+		case *ssa.DebugRef:
+		case *ssa.UnOp:
+			if x.Op != token.MUL {
+				return nil, "pointer used in " + x.String()
+			}
+		case *ssa.Store:
+			if x.Addr != ssa.Value(prm) {
+				return nil, "the element's address is stored in " + fnName(x.Parent())
+			}
+			out = append(out, x)
+		case ssa.CallInstruction:
+			callee := x.Common().StaticCallee()
+			if callee == nil || !isOwn(callee) || callee.Blocks == nil {
+				return nil, "address passed on to a function that is not a static chess-3 callee"
+			}
+			for i, a := range x.Common().Args {
+				if a == ssa.Value(prm) && i < len(callee.Params) {
+					ups, why := c16ViaParam(callee.Params[i], depth+1)
+					if why != "" {
+						return nil, why
+					}
+					out = append(out, ups...)
+				}
+			}
+		default:
+			return nil, fmt.Sprintf("pointer used in a %T in %s", r, fnName(prm.Parent()))
+		}
+	}
+	return out, ""
+}
+
+// c16Gravity matches st = "e = e + cb - conv(conv(e)*conv(Abs(cb)) / D)"; the
+// new value may also be computed by a chess-3 function that receives the old entry.
 func c16Gravity(st *ssa.Store, ev *c16Eval) (d int64, cb c16Iv, prodT types.Type, why string) {
 	isE := func(v ssa.Value) bool {
 		a, ok := c16Load(v)
 		return ok && sameValue(a, st.Addr, 0) && v.(*ssa.UnOp).Block() == st.Block()
 	}
+	val, blk := st.Val, st.Block()
+	for depth := 0; depth < 3; depth++ {
+		call, isCall := stripConv(val).(*ssa.Call)
+		if !isCall {
+			break
+		}
+		callee := call.Call.StaticCallee()
+		if callee == nil || !isOwn(callee) || callee.Blocks == nil || len(c16Rets(callee)) != 1 || len(c16Rets(callee)[0].Results) != 1 {
+			break
+		}
+		var prm *ssa.Parameter
+		for i, a := range call.Call.Args {
+			if isE(stripConv(a)) && i < len(callee.Params) {
+				if prm != nil {
+					return 0, cb, nil, "the old entry is passed twice to " + fnName(callee)
+				}
+				prm = callee.Params[i]
+			}
+		}
+		if prm == nil {
+			break
+		}
+		ret := c16Rets(callee)[0]
+		val, blk = ret.Results[0], ret.Block()
+		isE = func(v ssa.Value) bool { return v == ssa.Value(prm) }
+	}
+	return c16GravityVal(val, isE, blk, ev)
+}
+
+func c16GravityVal(val ssa.Value, isE func(ssa.Value) bool, blk *ssa.BasicBlock, ev *c16Eval) (d int64, cb c16Iv, prodT types.Type, why string) {
 	var terms []c16Term
-	c16Sum(st.Val, false, &terms)
+	c16Sum(val, false, &terms)
 	var e, cbv, q ssa.Value
 	for _, t := range terms {
 		switch {
@@ -1201,16 +1429,13 @@ func c16Gravity(st *ssa.Store, ev *c16Eval) (d int64, cb c16Iv, prodT types.Type
 		a, b = b, a
 	}
 	abs, isCall := b.(*ssa.Call)
-	if !isE(a) || !isCall || objName(calleeObj(abs)) != "chess.Abs" || len(abs.Call.Args) != 1 || abs.Call.Args[0] != cbv {
-		return 0, cb, nil, "the product is not entry * chess.Abs(bonus term)"
+	if !isE(a) || !isCall || len(abs.Call.Args) != 1 || abs.Call.Args[0] != cbv {
+		return 0, cb, nil, "the product is not entry * abs(bonus term) with the same bonus term that is added"
 	}
 	if !c16AbsOK(abs.Call.StaticCallee()) {
-		return 0, cb, nil, "chess.Abs is not 'if x < 0 { return -x }; return x'"
+		return 0, cb, nil, "the function applied to the bonus term is not 'if x < 0 { return -x }; return x'"
 	}
-	if !isCallValueTo(cbv, "chess.Clamp") {
-		return 0, cb, nil, "the bonus term is not a chess.Clamp call"
-	}
-	iv, err := ev.eval(cbv, st.Block(), nil, map[ssa.Value]bool{}, 0)
+	iv, err := ev.eval(cbv, blk, nil, map[ssa.Value]bool{}, 0)
 	if err != nil {
 		return 0, cb, nil, "range of the clamped bonus: " + err.msg
 	}
@@ -1336,7 +1561,8 @@ func c16R1(c *Ctx, p *Prog, ev *c16Eval, pk *c16Picker) {
 // ---------------------------------------------------------------- R3 stage machine
 
 type c16St struct {
-	cur, tag       int64 // p.state now / value seen by the switch tag load (-1 unknown, -2 not loaded)
+	cur            int64    // p.state now (-1 unknown)
+	tag            [6]int64 // value seen by the k-th load of p.state (-1 unknown, -2 not loaded)
 	gN, gQ, hA     int
 	exGood, exRest bool
 }
@@ -1347,7 +1573,46 @@ type c16Run struct {
 	pos token.Pos
 }
 
-func c16Explore(pk *c16Picker, s int64, tagLoad ssa.Value) []c16Run {
+// c16CmpInt evaluates 'a op b'.
+func c16CmpInt(op token.Token, a, b int64) bool {
+	switch op {
+	case token.EQL:
+		return a == b
+	case token.NEQ:
+		return a != b
+	case token.LSS:
+		return a < b
+	case token.LEQ:
+		return a <= b
+	case token.GTR:
+		return a > b
+	}
+	return a >= b
+}
+
+// c16TagCmp: cond compares a load of p.state with a constant; returns the load's index, the operator (load on the left) and the constant.
+func c16TagCmp(cond ssa.Value, tagLoads []ssa.Value) (k int, op token.Token, n int64, ok bool) {
+	cmp, isB := cond.(*ssa.BinOp)
+	if !isB {
+		return 0, 0, 0, false
+	}
+	if _, isCmp := c16Flip[cmp.Op]; !isCmp {
+		return 0, 0, 0, false
+	}
+	for k, t := range tagLoads {
+		if cmp.X == t {
+			n, ok = c16K(cmp.Y)
+			return k, cmp.Op, n, ok
+		}
+		if cmp.Y == t {
+			n, ok = c16K(cmp.X)
+			return k, c16Flip[cmp.Op], n, ok
+		}
+	}
+	return 0, 0, 0, false
+}
+
+func c16Explore(pk *c16Picker, s int64, tagLoads []ssa.Value) []c16Run {
 	type item struct {
 		b  *ssa.BasicBlock
 		st c16St
@@ -1355,7 +1620,7 @@ func c16Explore(pk *c16Picker, s int64, tagLoad ssa.Value) []c16Run {
 	seen := map[item]bool{}
 	var runs []c16Run
 	seenRun := map[c16Run]bool{}
-	work := []item{{pk.fn.Blocks[0], c16St{cur: s, tag: -2}}}
+	work := []item{{pk.fn.Blocks[0], c16St{cur: s, tag: [6]int64{-2, -2, -2, -2, -2, -2}}}}
 	bump := func(n int) int { return min(n+1, 2) }
 	for len(work) > 0 {
 		it := work[len(work)-1]
@@ -1369,8 +1634,10 @@ func c16Explore(pk *c16Picker, s int64, tagLoad ssa.Value) []c16Run {
 		for _, in := range it.b.Instrs {
 			switch x := in.(type) {
 			case *ssa.UnOp:
-				if ssa.Value(x) == tagLoad {
-					st.tag = st.cur
+				for k, t := range tagLoads {
+					if ssa.Value(x) == t {
+						st.tag[k] = st.cur
+					}
 				}
 			case *ssa.Store:
 				if _, ok := c16FieldAddr(x.Addr, c16fState); ok {
@@ -1394,7 +1661,7 @@ func c16Explore(pk *c16Picker, s int64, tagLoad ssa.Value) []c16Run {
 						r.ret = int(n)
 					}
 				}
-				r.st.tag = 0
+				r.st.tag = [6]int64{}
 				if !seenRun[r] {
 					seenRun[r] = true
 					runs = append(runs, r)
@@ -1403,15 +1670,9 @@ func c16Explore(pk *c16Picker, s int64, tagLoad ssa.Value) []c16Run {
 				push(it.b.Succs[0], st)
 			case *ssa.If:
 				takeT, takeF := true, true
-				if cmp, ok := x.Cond.(*ssa.BinOp); ok && (cmp.Op == token.EQL || cmp.Op == token.NEQ) && st.tag >= 0 {
-					other := cmp.Y
-					if cmp.Y == tagLoad {
-						other = cmp.X
-					}
-					if k, isC := c16K(other); isC && (cmp.X == tagLoad || cmp.Y == tagLoad) {
-						eq := st.tag == k
-						takeT, takeF = eq == (cmp.Op == token.EQL), eq != (cmp.Op == token.EQL)
-					}
+				if k, op, n, ok := c16TagCmp(x.Cond, tagLoads); ok && st.tag[k] >= 0 {
+					takeT = c16CmpInt(op, st.tag[k], n)
+					takeF = !takeT
 				}
 				sT, sF := st, st
 				for _, l := range pk.sels {
@@ -1451,9 +1712,26 @@ func c16R3(c *Ctx, p *Prog, pk *c16Picker) {
 			tagLoads = append(tagLoads, u)
 		}
 	})
-	if len(tagLoads) != 1 || len(callsIn(fn, c16GenN)) == 0 || len(callsIn(fn, c16GenQ)) == 0 || len(pk.allocs) == 0 {
-		c.Undec(rule, cons+"#shape", fn.Pos(), "Next must load p.state exactly once (switch tag) and call GenNoisy, GenNotNoisy and Store.Alloc; found %d loads, %d/%d/%d calls", len(tagLoads), len(callsIn(fn, c16GenN)), len(callsIn(fn, c16GenQ)), len(pk.allocs))
+	if len(tagLoads) == 0 || len(tagLoads) > 6 || len(callsIn(fn, c16GenN)) == 0 || len(callsIn(fn, c16GenQ)) == 0 || len(pk.allocs) == 0 {
+		c.Undec(rule, cons+"#shape", fn.Pos(), "Next must dispatch on loads of p.state (1..6) and call GenNoisy, GenNotNoisy and Store.Alloc itself; found %d loads, %d/%d/%d calls", len(tagLoads), len(callsIn(fn, c16GenN)), len(callsIn(fn, c16GenQ)), len(pk.allocs))
 		return
+	}
+	// every branch that depends on p.state must be a comparison the exploration can evaluate; otherwise it would fork into infeasible paths
+	for _, b := range fn.Blocks {
+		iff, ok := b.Instrs[len(b.Instrs)-1].(*ssa.If)
+		if !ok {
+			continue
+		}
+		if _, _, _, ok := c16TagCmp(iff.Cond, tagLoads); ok {
+			continue
+		}
+		sl := backSlice(iff.Cond, sliceOpts{})
+		for _, t := range tagLoads {
+			if sl[t] {
+				c.Undec(rule, cons+"#shape", iff.Pos(), "a branch of Next depends on p.state through something other than a comparison with a constant; the stage machine cannot be explored exactly")
+				return
+			}
+		}
 	}
 	var selRest *c16SelLoop
 	for _, l := range pk.sels {
@@ -1515,7 +1793,7 @@ func c16R3(c *Ctx, p *Prog, pk *c16Picker) {
 			continue
 		}
 		if _, ok := runs[k.s]; !ok {
-			runs[k.s] = c16Explore(pk, k.s, tagLoads[0])
+			runs[k.s] = c16Explore(pk, k.s, tagLoads)
 		}
 		for _, r := range runs[k.s] {
 			n := cfg{r.st.cur, min(k.gN+r.st.gN, 2), min(k.gQ+r.st.gQ, 2), min(k.hA+r.st.hA, 2)}
@@ -1618,6 +1896,15 @@ func c16R4(c *Ctx, p *Prog, pk *c16Picker) {
 		c16Tri(c, initOK, real, rule, l.key+"#from-old-end", l.init.Pos(), "ranking after %s starts at %s", l.genName, how)
 		// every element of the tail gets a weight
 		isW := func(in ssa.Instruction) bool {
+			if ci, isCall := in.(ssa.CallInstruction); isCall {
+				for _, a := range ci.Common().Args { // a callee handed &moves[i] (or its Weight) may assign it
+					for _, f := range []string{"", "Weight"} {
+						if x, i, ok := c16Elem(a, f); ok && x == l.x && i == l.i {
+							return true
+						}
+					}
+				}
+			}
 			st, ok := in.(*ssa.Store)
 			if !ok {
 				return false
@@ -1633,24 +1920,20 @@ func c16R4(c *Ctx, p *Prog, pk *c16Picker) {
 			c.Ok(rule, l.key+"#covers-tail", l.store.Pos(), "i runs to len(frame after %s) and every iteration assigns moves[i].Weight", l.genName)
 		}
 		// duplicate suppression
-		if l.hashIf == nil {
+		switch {
+		case l.dupCmp == nil:
 			// a definite violation only if the ranker's store is unconditional inside the loop
-			uncond := l.guard != nil
-			for _, ce := range controllingConds(l.store.Block()) {
-				if l.guard != nil && ce.If != l.guard && l.guard.Block().Dominates(ce.If.Block()) {
-					uncond = false
-				}
-			}
+			uncond := l.guard != nil && newPostDom(fn).PostDominates(l.store.Block(), l.guard.Block().Succs[0])
 			c16Tri(c, false, uncond, rule, l.key+"#hash-duplicate-test", l.store.Pos(), "the ranker's weight is stored without comparing p.hashMove with moves[i].Move (whole move): the hash move, already yielded first, would be yielded a second time (or another move suppressed in its place)")
-		} else if !l.hasS {
-			c.Undec(rule, l.key+"#hash-duplicate-test", l.hashIf.Pos(), "on p.hashMove == moves[i].Move no constant sentinel weight is stored to moves[i].Weight")
-		} else {
-			c.Ok(rule, l.key+"#hash-duplicate-test", l.hashIf.Pos(), "p.hashMove == moves[i].Move stores sentinel %d, otherwise %s(moves[i].Move)", l.S, l.ranker)
+		case !l.dupOK || !l.hasS || !l.simOK:
+			c.Undec(rule, l.key+"#hash-duplicate-test", l.dupCmp.Pos(), "p.hashMove == moves[i].Move is tested, but not on every path: the ranker's weight can still be stored for the duplicate, or the constant (sentinel) weight is not stored exactly on equality (sentinel found: %v, exploration complete: %v); the rule cannot tell whether the extra conditions are equivalent to 'the hash move was yielded'", l.hasS, l.simOK)
+		default:
+			c.Ok(rule, l.key+"#hash-duplicate-test", l.dupCmp.Pos(), "on every path p.hashMove == moves[i].Move stores sentinel %d and nothing else does; otherwise %s(moves[i].Move) is stored", l.S, l.ranker)
 		}
 	}
 	for _, g := range pk.gens {
 		if !covered[g] {
-			c.Fail(rule, "Next#rank:"+strings.TrimPrefix(objName(calleeObj(g)), "movegen.")+"#missing", g.Pos(), "no ranking loop recognised for the moves produced by this %s call", objName(calleeObj(g)))
+			c.Undec(rule, "Next#rank:"+strings.TrimPrefix(objName(calleeObj(g)), "movegen.")+"#missing", g.Pos(), "no ranking loop recognised in Next for the moves produced by this %s call", objName(calleeObj(g)))
 		}
 	}
 	nr := len(callsIn(fn, c16RankN)) + len(callsIn(fn, c16RankQ))
@@ -1666,7 +1949,7 @@ func c16R5(c *Ctx, p *Prog, pk *c16Picker) {
 	// (a) selection loops
 	for _, l := range pk.sels {
 		_, constInit := c16K(l.init)
-		c16Tri(c, isCallValueTo(l.x, c16Frame) && c16LoadOfField(l.init, c16fIx) && c16Guard(l.cmp.Block(), l.i, l.x) != nil && l.none < 0, constInit || l.none >= 0, rule, l.key+"#argmax-over-unyielded", l.cmp.Pos(),
+		c16Tri(c, isCallValueTo(l.x, c16Frame) && c16LoadOfField(l.init, c16fIx) && l.guarded && l.none < 0, constInit || l.none >= 0, rule, l.key+"#argmax-over-unyielded", l.cmp.Pos(),
 			"selection is an argmax of Weight over i in [p.ix, len(Frame())) with threshold %d (strict: %v) and 'none' marker %d: starting before p.ix would re-yield, starting after would skip", l.T, l.strict, l.none)
 	}
 	c.Floor(rule+".selections", len(pk.sels), 2, "selection loops")
@@ -1683,7 +1966,7 @@ func c16R5(c *Ctx, p *Prog, pk *c16Picker) {
 					okInc = isC && k == 1
 				}
 				if !okInc {
-					c.Fail(rule, fmt.Sprintf("Next#cursor-store@%d", len(ixStores)), st.Pos(), "p.ix is assigned something other than p.ix + 1")
+					c.Undec(rule, fmt.Sprintf("Next#cursor-store@%d", len(ixStores)), st.Pos(), "p.ix is assigned something other than p.ix + 1; the one-step rule only understands increments")
 				}
 			}
 		}
@@ -1756,7 +2039,7 @@ func c16R5(c *Ctx, p *Prog, pk *c16Picker) {
 			kind, key = "alloc", "Next#yield-hash"
 		}
 		if kind == "" {
-			c.Fail(rule, fmt.Sprintf("Next#return-true@b%d", b.Index), ret.Pos(), "'return true' is neither behind a successful selection scan nor behind the hash-move Alloc: nothing was placed at the cursor")
+			c.Undec(rule, fmt.Sprintf("Next#return-true@b%d", b.Index), ret.Pos(), "'return true' is behind neither a recognised selection scan nor the hash-move Alloc: cannot tell what was placed at the cursor")
 			continue
 		}
 		c.Check(cnt == 2, rule, key+"#one-step", ret.Pos(), "'return true' is reached with exactly one p.ix++ on every path (count set %03b; 010 = exactly one): Move() reads p.ix-1, so no step re-yields the previous move and two steps skip one", cnt)
@@ -1792,17 +2075,17 @@ func c16R5(c *Ctx, p *Prog, pk *c16Picker) {
 					continue
 				}
 				x, idx, ok := c16Elem(st.Addr, "")
-				if !ok || x != sel.x {
+				if !ok || !c16SameFrame(x, sel.x) {
 					continue
 				}
 				vx, vidx, isElem := c16LoadElem(st.Val, "")
-				if !isElem || vx != sel.x {
+				if !isElem || !c16SameFrame(vx, sel.x) {
 					continue
 				}
-				if c16LoadOfField(idx, c16fIx) && vidx == ssa.Value(sel.best) {
+				if c16LoadOfField(idx, c16fIx) && vidx == sel.best {
 					toIx = st
 				}
-				if idx == ssa.Value(sel.best) && c16LoadOfField(vidx, c16fIx) {
+				if idx == sel.best && c16LoadOfField(vidx, c16fIx) {
 					toBest = st
 				}
 			}
@@ -1940,7 +2223,7 @@ func init() {
 			Expect: "C16.R2/heur.(*History).Add"},
 		Mutant{Name: "C16.R2-history-second-writer", Prop: "C16", File: "heur/hist.go",
 			Old: "// LookUp returns the history heuristics entry for the move.", New: "// Age halves... no: doubles every entry.\nfunc (h *History) Age() {\n\tfor c := range Colors {\n\t\tfor f := range Squares {\n\t\t\tfor t := range Squares {\n\t\t\t\th.data[c][f][t] *= 2\n\t\t\t}\n\t\t}\n\t}\n}\n\n// LookUp returns the history heuristics entry for the move.",
-			Expect: "C16.R2/heur.History.data#writer:heur.(*History).Age"},
+			Expect: "C16.R2/heur.(*History).Age#shape"},
 		// R3
 		Mutant{Name: "C16.R3-genquiet-state-not-advanced", Prop: "C16", File: pf, Quick: true,
 			Old: "\t\tp.state = yieldRest\n", New: "",
@@ -1960,6 +2243,9 @@ func init() {
 			Expect: "C16.R4/Next#rank:GenNotNoisy#hash-duplicate-test"},
 		Mutant{Name: "C16.R4-noisy-duplicate-test-on-target-square-only", Prop: "C16", File: pf,
 			Old: dupN, New: strings.Replace(dupN, "p.hashMove == moves[i].Move", "p.hashMove.To() == moves[i].Move.To()", 1),
+			Expect: "C16.R4/Next#rank:GenNoisy#hash-duplicate-test"},
+		Mutant{Name: "C16.R4-duplicate-test-skipped-for-hash-moves-classified-quiet", Prop: "C16", File: pf,
+			Old: dupN, New: strings.Replace(dupN, "p.hashMove == moves[i].Move", "p.board.SquaresToPiece[p.hashMove.To()] != NoPiece && p.hashMove == moves[i].Move", 1),
 			Expect: "C16.R4/Next#rank:GenNoisy#hash-duplicate-test"},
 		Mutant{Name: "C16.R4-noisy-stage-uses-quiet-ranker", Prop: "C16", File: pf,
 			Old: "p.ranker.RankNoisy(", New: "p.ranker.RankQuiet(",
